@@ -9,7 +9,7 @@ use iroh_docs::{
     store::{DownloadPolicy, FilterKind, Query, SortBy, SortDirection, Store},
     Capability, CapabilityKind, ContentStatus, NamespaceId, NamespaceSecret, ReplicaInfo,
 };
-use redb::{ReadableDatabase, TableHandle};
+use redb::{ReadableDatabase, ReadableTable, TableHandle};
 use serde_json::{json, Value};
 
 use crate::{
@@ -330,6 +330,46 @@ impl<'w> DocsRun<'w> {
                 let res = self.store.as_mut().unwrap().remove_replica(&self.t.id(d));
                 json!({"ev":"Remove","d":d,"res": match res { Ok(_) => "ok".to_string(), Err(e) => anyhow_class(&e) }})
             }
+            "plant" => {
+                // A record of a document for which no secret exists (synthetic neighbour id), written straight into the
+                // database file together with its index and head rows: the only way to have *entries* in documents whose
+                // ids are numerically adjacent (..FE / ..FF / carry successor).  Environment action, file stores only.
+                let path = self.path.clone()?;
+                self.infos.clear();
+                drop(self.store.take());
+                let e = &op["e"];
+                let id = self.t.id(d).to_bytes();
+                let author = w.author(e["a"].as_i64().unwrap()).id().to_bytes();
+                let key = key_of(&e["k"]);
+                let ts = e["ts"].as_u64().unwrap();
+                let hash = *w.hash(e["h"].as_i64().unwrap()).as_bytes();
+                let len = e["len"].as_u64().unwrap();
+                {
+                    type RecordsId<'a> = (&'a [u8; 32], &'a [u8; 32], &'a [u8]);
+                    type RecordsValue<'a> = (u64, &'a [u8; 64], &'a [u8; 64], u64, &'a [u8; 32]);
+                    const RECORDS: redb::TableDefinition<RecordsId, RecordsValue> = redb::TableDefinition::new("records-1");
+                    const BY_KEY: redb::TableDefinition<(&[u8; 32], &[u8], &[u8; 32]), ()> = redb::TableDefinition::new("records-by-key-1");
+                    const LATEST: redb::TableDefinition<(&[u8; 32], &[u8; 32]), (u64, &[u8])> = redb::TableDefinition::new("latest-by-author-1");
+                    let db = redb::Database::create(&path).expect("open redb");
+                    let tx = db.begin_write().expect("begin");
+                    {
+                        let mut records = tx.open_table(RECORDS).expect("records");
+                        let mut by_key = tx.open_table(BY_KEY).expect("bykey");
+                        let mut latest = tx.open_table(LATEST).expect("latest");
+                        records.insert((&id, &author, key.as_slice()), (ts, &[1u8; 64], &[2u8; 64], len, &hash)).expect("ins");
+                        by_key.insert((&id, key.as_slice(), &author), ()).expect("ins");
+                        let newer = latest.get((&id, &author)).expect("get").map(|v| v.value().0 >= ts).unwrap_or(false);
+                        if !newer {
+                            latest.insert((&id, &author), (ts, key.as_slice())).expect("ins");
+                        }
+                    }
+                    tx.commit().expect("commit");
+                }
+                let res = Store::persistent(&path);
+                let ok = res.is_ok();
+                self.store = Some(res.unwrap_or_else(|_| Store::memory()));
+                json!({"ev":"Plant","d":d,"e":e.clone(),"res": if ok {"ok"} else {"err"}})
+            }
             "reopen" | "dropderived" => {
                 let path = self.path.clone()?;
                 self.infos.clear();
@@ -388,6 +428,18 @@ pub fn gen_history(r: &mut Rng, t: &DocTable, len: usize, file: bool) -> Vec<Val
                 ops.push(json!({"op":"import","d":d,"kind": if r.chance(4,5) {"write"} else {"read"}}));
                 if r.chance(4, 5) {
                     ops.push(json!({"op":"open","d":d}));
+                }
+            }
+        }
+    }
+    // file stores: sometimes the synthetic neighbour documents (ids ..FE, ..FF, carry successor, all-0xFF) hold entries
+    if file && r.chance(1, 2) {
+        let synth: Vec<usize> = (1..=n).filter(|d| !real.contains(d)).collect();
+        for (i, d) in synth.iter().enumerate() {
+            if r.chance(2, 3) {
+                for j in 0..1 + r.below(2) {
+                    let h = *r.pick(&[1i64, 2, 3]);
+                    ops.push(json!({"op":"plant","d":d,"e":{"a":1 + r.below(2),"k":[i, j, 7],"ts":1 + r.below(6),"h":h,"len":1}}));
                 }
             }
         }
